@@ -90,7 +90,10 @@ impl Check for C17 {
             "host_header": form != "absolute" || g.chance(80), "body_with_header": body_len, "body_later": rest_len,
             "split_seeds": (0..nsplit).map(|_| g.next() % 1_000_000).collect::<Vec<_>>(), "gap_us": *g.pick(&[0u64, 0, 500, 20_000]),
             "long_pause": if g.chance(15) { json!([g.next() % 1_000_000, *g.pick(&[6_000u64, 20_000])]) } else { Value::Null }, "body_in_same_segment": g.chance(60),
-            "target": *g.pick(&["accept", "accept", "accept", "accept", "refuse"])})
+            "target": *g.pick(&["accept", "accept", "accept", "accept", "refuse"]),
+            // a sibling request on the same pooled session: a slow download whose application drops its connection
+            // while this request is still under way — this request must not notice
+            "sibling_drops": rest_len > 0 && g.chance(30), "sibling_drop_ms": *g.pick(&[150u64, 300, 450])})
     }
     fn horizon(&self, _p: &Value) -> Duration {
         Duration::from_secs(3_000)
@@ -172,10 +175,24 @@ impl Check for C17 {
             let padding = crate::tiera::factory(DEFAULT_SCHEME);
             start_server(padding.clone());
             let is_connect = form == "connect";
-            let internet = start_internet(move |_| if is_connect { Tgt::Echo } else { Tgt::Greet(RESP.to_vec()) });
+            let internet = start_internet(move |a| if a.port() == 8077 { Tgt::Drip { chunks: 40, gap_ms: 100 } } else if is_connect { Tgt::Echo } else { Tgt::Greet(RESP.to_vec()) });
             let client = make_client(padding, quiet_pool(), PASSWORD);
             start_http(client.clone());
             sleep(Duration::from_millis(1)).await;
+            if plan["sibling_drops"].as_bool().unwrap_or(false) && !refuse {
+                // the sibling goes first (it dials the session this request will reuse)
+                let drop_ms = plan["sibling_drop_ms"].as_u64().unwrap_or(300);
+                if let Ok(mut sib) = TcpStream::connect(HTTP_ADDR).await {
+                    let _ = sib.write_all(b"GET http://198.51.100.77:8077/big HTTP/1.1\r\nHost: 198.51.100.77:8077\r\n\r\n").await;
+                    let mut b = [0u8; 512];
+                    let _ = timeout(Duration::from_secs(30), sib.read(&mut b)).await;
+                    anytls_simnet::spawn(async move {
+                        sleep(Duration::from_millis(drop_ms)).await;
+                        world::fault_fired("application.sibling_drops_mid_download");
+                        drop(sib);
+                    });
+                }
+            }
             let before = world::with(|w| w.net.connect_log.len()).unwrap_or(0);
             let Ok(app) = TcpStream::connect(HTTP_ADDR).await else {
                 out.viol("harness", "no-listener", "cannot connect to the HTTP listener");
@@ -345,7 +362,7 @@ impl Check for C17 {
         out
     }
     fn rule(&self) -> &'static str {
-        "(absolute-form requests: in 25% of the cases the Host header disagrees with the URI — another host, the same host without its non-default port, another port — and the URI must win) one case = one well-formed proxy request: CONNECT authority / absolute-form (http, sometimes https) / origin-form + Host; methods incl. lower-case and extension methods; host as name / IPv4 / bracketed IPv6, with or without an explicit port (boundary and random ports, scheme defaults); 0-8 extra header lines in seeded order with long values, Host header spelled Host/host/HOST/hOsT at a seeded position (sometimes absent for absolute-form); header blocks padded to sizes around 1 KiB, 2 KiB and the 64 KiB limit; 0-70000 body bytes arriving in the same segments as the header or just after it plus more bytes 700 ms later (early tunnel bytes for CONNECT); seeded segmentation with delays; target accepts or refuses; oracle = independent reference for the authority, the rewritten request the origin must receive, the status line and the bytes relayed both ways; every case is non-trivial; distinct = distinct (plan hash, poll-order fingerprint)"
+        "(absolute-form requests: in 25% of the cases the Host header disagrees with the URI — another host, the same host without its non-default port, another port — and the URI must win) one case = one well-formed proxy request: CONNECT authority / absolute-form (http, sometimes https) / origin-form + Host; methods incl. lower-case and extension methods; host as name / IPv4 / bracketed IPv6, with or without an explicit port (boundary and random ports, scheme defaults); 0-8 extra header lines in seeded order with long values, Host header spelled Host/host/HOST/hOsT at a seeded position (sometimes absent for absolute-form); header blocks padded to sizes around 1 KiB, 2 KiB and the 64 KiB limit; 0-70000 body bytes arriving in the same segments as the header or just after it plus more bytes 700 ms later (early tunnel bytes for CONNECT); seeded segmentation with delays; in 30% of the cases with late body bytes a sibling request on the same pooled session (a slow download) whose application drops its connection while this request is still under way; target accepts or refuses; oracle = independent reference for the authority, the rewritten request the origin must receive, the status line and the bytes relayed both ways; every case is non-trivial; distinct = distinct (plan hash, poll-order fingerprint)"
     }
     fn real_components(&self) -> Vec<&'static str> {
         vec!["start_http_proxy_server / handle_http_proxy_connection / read_http_header / parse_http_request / determine_target / split_host_port / build_forward_request", "Client::create_proxy_stream, Session, Server, TcpProxyHandler, rustls (the tunnel behind the front-end)"]
